@@ -41,9 +41,42 @@ macro_rules! trunc_noschema {
         });
     };
 }
+/// Concrete cut offset, symbolic contents: robust against reader implementations whose loops CBMC
+/// cannot bound under a symbolic remaining length.
+macro_rules! trunc_at {
+    ($name:ident, $t:ty, $len:expr, $k:expr) => {
+        kproof!($name, 12, {
+            set_len($len);
+            let x: $t = <$t as VT>::any();
+            let (buf, n) = ser::<$t, REFCAP>(&x, 0).unwrap();
+            assert!($k < n, "harness: cut offset must be a strict prefix");
+            match de::<$t>(&buf[..$k], 0) {
+                Ok((y, _)) => {
+                    std::mem::forget(y);
+                    panic!("C07: a strict prefix of the saved bytes was accepted as complete data");
+                }
+                Err(e) => std::mem::forget(e),
+            }
+            std::mem::forget(x);
+            kani::cover!(true, "reached end");
+        });
+    };
+}
 pub mod q {
     use super::*;
     use crate::dtypes::*;
+    trunc_at!(k_string_8, String, 2, 8);
+    trunc_at!(k_string_9, String, 2, 9);
+    trunc_at!(k_string_4, String, 2, 4);
+    trunc_at!(k_tup_str_13, (u32, String), 2, 13);
+    trunc_at!(k_tup_str_12, (u32, String), 2, 12);
+    trunc_at!(k_vec_u32_12, Vec<u32>, 2, 12);
+    trunc_at!(k_vec_u32_15, Vec<u32>, 2, 15);
+    trunc_at!(k_vec_usize_17, Vec<usize>, 2, 17);
+    trunc_at!(k_arraystring_9, arrayvec::ArrayString<3>, 2, 9);
+    trunc_at!(k_arrayvec_9, arrayvec::ArrayVec<u16, 3>, 2, 9);
+    trunc_at!(k_arr_5, [u16; 3], 0, 5);
+    trunc_at!(k_opt_2, Option<u16>, 0, 2);
     trunc_harness!(b_u32, u32, 5, 0);
     trunc_harness!(b_opt_u16, Option<u16>, 5, 0);
     trunc_harness!(b_string, String, 6, 2);
